@@ -62,7 +62,7 @@ def gen_set(rng, conflict=None):
 CONFLICTS = ["duplicate-type", "duplicate-type-same-file", "duplicate-condition", "extend-missing",
              "duplicate-relation-base", "duplicate-relation-two-extensions", "model-header", "model-header-with-condition",
              "syntax-error", "extended-twice-in-file", "define-and-extend-same-file-ok", "two-extend-relationless-ok",
-             "blank-file", "case-twin-relations", "case-twin-conditions", "same-name-files-ok"]
+             "blank-file", "case-twin-relations", "case-twin-conditions", "same-name-files-ok", "duplicate-relation-in-extension"]
 
 
 def inject(rng, files, names, conds, kind):
@@ -185,6 +185,28 @@ def inject(rng, files, names, conds, kind):
         insert_type_decl(f1, ("extend", "shared", [("viewer", simple_expr(rng, ["viewer"], names, []))]))
         insert_type_decl(f2, ("extend", "shared", [("editor", simple_expr(rng, ["editor"], names, []))]))
         return {"kind": kind, "conflict": False}
+    if kind == "duplicate-relation-in-extension":
+        # one 'extend type' block declares the same NEW relation twice: the second declaration must not silently replace the first
+        cands = [(f, d) for f in files for d in f["decls"] if d[0] == "extend" and d[2]]
+        if not cands:
+            tys = [d for f in files for d in types_of(f)]
+            if not tys:
+                return None
+            d0 = rng.choice(tys)
+            used = {r for r, _ in d0[2]} | {r for g in files for x in g["decls"] if x[0] == "extend" and x[1] == d0[1] for r, _ in x[2]}
+            free = [r for r in REL_POOL if r not in used]
+            if not free:
+                return None
+            g = rng.choice(files)
+            g["decls"] = [x for x in g["decls"] if not (x[0] == "extend" and x[1] == d0[1])]
+            d = ("extend", d0[1], [(free[0], simple_expr(rng, [free[0]], names, []))])
+            insert_type_decl(g, d)
+            f = g
+        else:
+            f, d = rng.choice(cands)
+        r = rng.choice(d[2])[0]
+        d[2].insert(rng.randrange(len(d[2]) + 1), (r, simple_expr(rng, [r], names, [])))
+        return {"kind": kind, "conflict": True, "type": d[1], "relation": r}
     if kind == "extended-twice-in-file":
         cands = [(f, d) for f in files for d in f["decls"] if d[0] == "extend"]
         if not cands:
@@ -245,13 +267,16 @@ def render(rng, f, wild=0.0):
                 lines.append("# about " + d[1])
             head = ("extend type " if d[0] == "extend" else "type ") + d[1]
             indent = rng.choice(["", "", " "]) if wild else ""
-            lines.append(indent + head)
+            # a trailing comment (the pre-pass cuts it) - also one that repeats the declaration: positions are those of the code
+            tail = rng.choice(["", "", " # see below", "  # " + head, " # " + d[1]]) if wild else ""
+            lines.append(indent + head + tail)
             pos.append((d[0], None, d[1], len(lines) - 1, len(indent) + len(head) - len(d[1])))
             if d[2]:
                 lines.append("  relations")
                 for r, e in d[2]:
                     indent = rng.choice(["    ", "    ", "\t", "      "]) if wild else "    "
-                    lines.append(indent + "define " + r + ": " + dslgen.render_expr(e, L))
+                    tail = rng.choice(["", "", "", " # " + r, "  # define " + r + ": [user]"]) if wild else ""
+                    lines.append(indent + "define " + r + ": " + dslgen.render_expr(e, L) + tail)
                     pos.append(("relation", d[1], r, len(lines) - 1, len(indent) + 7, d[0]))
         else:
             c = d[1]
